@@ -151,7 +151,14 @@ def run(ctx, spec):
         slopes = np.tile(np.array([s, -s] * (nfr // 2)), (2, nsub, 1))
         if rng.random() < 0.5:          # static offsets differing between sub-apertures do not change any temporal variance
             slopes = slopes + s * (2.0 ** rng.integers(0, 6, (2, nsub, 1)))
-        ctx.case("slopes", key=("sl", s, d, nfr, nsub, lam))
+        # a static pointing offset far larger than the jitter (offset / rms up to 1e7) leaves the temporal variance unchanged;
+        # the +-s record on an exactly representable offset keeps its deviations exact, so the variance is s^2 to rounding
+        big = 0.0
+        if rng.random() < 0.5:
+            s = float(np.ldexp(float(rng.integers(512, 1024)), int(np.floor(np.log2(s))) - 9))     # a 10-bit mantissa: offset + s is exact
+            big = s * float(2.0 ** int(rng.integers(10, 24)))
+            slopes = np.tile(np.array([s, -s] * (nfr // 2)), (2, nsub, 1)) + big * rng.integers(1, 4, (2, nsub, 1))
+        ctx.case("slopes", key=("sl", s, d, nfr, nsub, lam, big))
         r0e = pure_call(ctx, "r0_from_slopes", ac.r0_from_slopes, slopes, lam, d)
         rel(ctx, "slope_variance_from_r0(r0_from_slopes)", pure_call(ctx, "slope_variance_from_r0", ac.slope_variance_from_r0, r0e, lam, d), s * s, 1e-10, "slopes_r0:inverse", {"s": s, "d": d, "lambda": lam})
         rel(ctx, "r0_from_slopes(slope_variance)", ((0.162 * lam ** 2 * d ** (-1 / 3.)) / ac.slope_variance_from_r0(r0, lam, d)) ** 0.6, r0, T, "r0_slopes:law", wit)
